@@ -157,7 +157,7 @@ partial def modelLoop (sc : StepCase) (k : Nat) (r : ModelRun) : String × Optio
     | .ok c cpu =>
       -- as in Cpu::run: `state * 3` (u8), then update_modules
       let cpu := if sc.modules then
-          let (b, reqs) := cpu.bus.updateModules ((c.toNat * 3) % 256)
+          let (b, reqs) := cpu.bus.updateModules (c.toNat * 3)
           { cpu with bus := b, pending := cpu.pending ++ reqs }
         else cpu
       modelLoop sc (k + 1) { r with cpu := cpu, cost := r.cost + c.toNat }
